@@ -33,6 +33,8 @@ def gen_case(rng: random.Random) -> dict[str, Any]:
             if rng.random() < 0.3:
                 beh["excOnCancel"] = rng.randrange(3)       # raises while unwinding from the cancellation
         specs.append({"h": h, "beh": beh, "children": children.get(h, [])})
+        if rng.random() < 0.25:
+            specs[-1]["close_ticks"] = rng.choice([0.35, 0.7, 1.15])    # the task's own context takes this long to tear down
     for h in spawned_by_script:
         at = rng.randint(0, max(0, exit_at - 1))
         step = {"at": at, "op": "spawn", "h": h, "via": rng.choice(["task", "soon"]),
@@ -47,7 +49,7 @@ def gen_case(rng: random.Random) -> dict[str, Any]:
             if "forever" in sp["beh"] or (sp["beh"]["ends"] >= 1 and sp["beh"]["exc"] is None):
                 sp["startDelay"] = 0.6          # takes task_status, calls started() 0.6 ticks after it began
                 r2 = rng.random()
-                if r2 < 0.3 and not sp["children"] and "excOnCancel" not in sp["beh"]:
+                if r2 < 0.3 and not sp["children"] and "excOnCancel" not in sp["beh"] and "close_ticks" not in sp:
                     sp["startFails"] = rng.randrange(3)     # … or rather fails at that point, before started()
                     sp["beh"] = {"ends": 1, "exc": None}
                 elif r2 < 0.6 and not sp["children"] and "excOnCancel" not in sp["beh"]:
